@@ -1,5 +1,6 @@
 import PynencModel.Model.Recovery
 import PynencModel.Props.C01
+import PynencModel.Gen.Programs
 /-
   C04 — recovery re-queues stuck PENDING / RUNNING work and never steals live work.
 
@@ -267,6 +268,14 @@ theorem take_only_scanned (target : Status) (rid : Option String) (o : Orch) (pl
         rcases hj with h | h
         · subst h; simp
         · exact List.mem_cons_of_mem _ (ih o2 j h)
+
+/-- T8 (tie, traced from the real code on every run). A live runner refreshes its own heartbeat on EVERY check for
+    the global services (`should_run_atomic_service`), also when it is already among the active runners — this is the
+    only self-heartbeat of a thread runner / parent runner, so skipping it would let its stamp age past the timeout
+    while it is alive. -/
+theorem live_runner_heartbeats_every_check :
+    Gen.Programs.atomicCheckTwiceP.filter (fun e => e.1 == "heartbeat") = [("heartbeat", "rLive"), ("heartbeat", "rLive")] := by
+  decide
 
 /-- non-vacuity: two stale PENDING invocations, the owner of the second starts it between scan and
     transition (the history that stranded the first one before the fix): the first is taken and
